@@ -3,6 +3,8 @@ import Upf.Proofs.Ref
 import Upf.Proofs.Tab
 import Upf.Model.AgentMod
 import Upf.Proofs.BessAddDel
+import Upf.Proofs.BessImage
+import Upf.Proofs.GenEqAgent
 /-!
 # C03 — BESS tables are exactly the image of the live sessions' rules
 
@@ -116,5 +118,74 @@ example : (Agent.deleteSession exCfg (Agent.establish exCfg exW 0 77 exReq).1 0 
 
 -- non-vacuity: a PDR with a three-port source range has three entries
 example : (Agent.pdrEntries { af := { srcPorts := ⟨80#16, 82#16⟩, dstPorts := ⟨0#16, 65535#16⟩ } }).map List.length = some 3 := by decide
+
+open Agent in
+section
+/-! ### agent level: the tables are the image of the store along every history (establishment, deletion, report
+"context not found", association ending, association setup, PFD update — any number of associations and sessions).
+`Agent.Inv` = association indices distinct ∧ stored sessions pairwise disjoint in SEID and keys ∧ `ImgOf` (under every
+key of each lookup table lies exactly the value the owning session's rules denote; nothing under any other key). The
+envelope `EnvOK` is the one of the property: a session that an establishment stores has a SEID and match keys no stored
+session has (unambiguous rule sets; C07 gives the SEID part per association). Modifications are outside this theorem
+(open findings: key-changing Update PDR, QER relabelling) and stay decided per observed history. -/
+
+theorem image_after_establishment (cfg : Cfg) (w : World) (a lseid : Nat) (r : EstReq) (hI : Inv cfg w)
+    (henv : (establish cfg w a lseid r).2.upSeid.isSome → ∀ s : Session, newSession cfg w a lseid r = some s → ∀ s' ∈ allSessions w, Disj cfg s s') :
+    Inv cfg (establish cfg w a lseid r).1 := establish_inv cfg w a lseid r hI henv
+
+theorem image_after_deletion (cfg : Cfg) (w : World) (a seid : Nat) (hI : Inv cfg w) : Inv cfg (deleteSession cfg w a seid).1 :=
+  delete_inv cfg w a seid hI
+
+theorem image_after_report_context_not_found (cfg : Cfg) (w : World) (a seid : Nat) (hI : Inv cfg w) :
+    Inv cfg (reportContextNotFound cfg w a seid) := report_inv cfg w a seid hI
+
+theorem image_after_association_end (cfg : Cfg) (w : World) (a : Nat) (hI : Inv cfg w) : Inv cfg (shutdownConn cfg w a) :=
+  shutdown_inv cfg w a hI
+
+/-- the invariant is the statement about `Agent.image` (the specification the trace oracle evaluates): each lookup
+table, read as a map, is the table obtained by installing every stored session's rules on empty tables -/
+theorem invariant_is_image (cfg : Cfg) (w : World) (hI : Inv cfg w) (X : Tb) (k : String) :
+    (w.tables.tab X).get k = ((image cfg w).tab X).get k := inv_iff_image cfg w hI X k
+
+/-- **from start-up on, after every request of every history in the envelope, the four BESS lookup tables are exactly
+the image of the stored sessions** -/
+theorem tables_are_the_image_along_every_history (cfg : Cfg) (pool : Option Pool.P) (g : Teid.G) (evs : List Ev)
+    (henv : EnvOK cfg { pool := pool, teid := g } evs) (X : Tb) (k : String) :
+    ((evs.foldl (stepEv cfg) { pool := pool, teid := g }).tables.tab X).get k =
+      ((image cfg (evs.foldl (stepEv cfg) { pool := pool, teid := g })).tab X).get k :=
+  inv_iff_image cfg _ (inv_run cfg evs _ (inv_start cfg pool g) henv) X k
+
+/-- and an ended session has left nothing: a key is present only if a stored session has it -/
+theorem nothing_else_is_present (cfg : Cfg) (w : World) (hI : Inv cfg w) (X : Tb) (k v : String)
+    (h : (w.tables.tab X).get k = some v) : ∃ s ∈ allSessions w, k ∈ s.keysOf cfg X := by
+  obtain ⟨s, hs, hv⟩ := (hI.img X k v).mp h
+  exact ⟨s, hs, key_of_lastVal hv⟩
+
+-- non-vacuity: two sessions with different TEIDs / UE addresses on one association satisfy the envelope; a second
+-- association's session too; the run installs 4 + 2 pdrLookup entries and the deletion of the first leaves 4
+def exP1b : Agent.PdrIE := { exP1 with fteid := some (false, 2000, 0xC6120101), ueip := some (2, 0x0A3C0002) }
+def exP2b : Agent.PdrIE := { exP2 with ueip := some (2, 0x0A3C0002) }
+def exReq2 : Agent.EstReq := { exReq with cpSeid := 5002, pdrs := [exP1b, exP2b] }
+def exW1 : Agent.World := (Agent.establish exCfg exW 0 77 exReq).1
+example : (Agent.establish exCfg exW1 0 78 exReq2).2.cause = 1 ∧ (Agent.establish exCfg exW1 0 78 exReq2).1.tables.pdr.length = 4 := by decide +kernel
+example : (allSessions exW1).length = 1 := by decide +kernel
+example : ∀ s, newSession exCfg exW1 0 78 exReq2 = some s → ∀ s' ∈ allSessions exW1, Disj exCfg s s' := by
+  intro s hs
+  have hmem : s ∈ ((Agent.establish exCfg exW1 0 78 exReq2).1.conn 0).sessions := List.mem_of_find?_eq_some hs
+  have hl : s.lseid = 78 := by simpa using List.find?_some hs
+  have hall : ∀ s ∈ ((Agent.establish exCfg exW1 0 78 exReq2).1.conn 0).sessions, s.lseid = 78 → ∀ s' ∈ allSessions exW1, Disj exCfg s s' := by
+    decide +kernel
+  exact hall s hmem hl
+
+end
+
+/-! ### ties to the regenerated leaf functions (T1): the model's action encoding and allocation test ARE the Go functions -/
+
+/-- `bess.setActionValue` (regenerated from bess.go) is the model's `actionValue`, every destination-interface and apply-action byte -/
+theorem action_encoding_is_the_code (d a : BitVec 8) :
+    (Gen.Leaf.bess_setActionValue d a).toNat = Agent.actionValue { dstIntf := d.toNat, applyAction := a.toNat } := Agent.actionValue_gen d a
+
+/-- `needAllocIP` / `has2ndBit` / `has5thBit` (regenerated from parse_pdr.go / utils.go) are the model's, all 256 flag bytes -/
+theorem alloc_test_is_the_code : ∀ f < 256, Gen.Leaf.needAllocIP (BitVec.ofNat 8 f) = Agent.needAllocIP f := Agent.needAllocIP_gen
 
 end Props.C03
